@@ -532,7 +532,8 @@ Inductive hevent :=
 | HTx (u : option (list Z))        (* raw USB read: None = USBError, Some (status :: payload) *)
 | HTxExc                           (* radio.send_packet raises *)
 | HSubmitTimeout (hdr : Z) (data : list Z)
-| HRecvWait (wait : Z).
+| HRecvWait (wait : Z)
+| HNop.                             (* something that does not involve the host (the firmware queues a packet) *)
 
 Record hworld := mkHW { hw_h : host; hw_got : list frame; hw_last : resp; hw_xerrs : Z; hw_serrs : Z }.
 
@@ -557,6 +558,7 @@ Definition hstep (N : Z) (e : hevent) (w : hworld) : list Z * hworld :=
       let f := host_frame h in let r := radio_ack_of_usb u in
       ((Z.of_nat (length f) :: f) ++ resp_obs r,
        mkHW (fst (host_recv N r h)) (hw_got w) r (hw_xerrs w) (hw_serrs w))
+  | HNop => ([], w)
   | HTxExc =>
       let f := host_frame h in
       ((Z.of_nat (length f) :: f) ++ [-7],
@@ -765,3 +767,53 @@ Definition reads_of (i : Z) (log : list (Z * resp)) : list resp :=
   map snd (filter (fun x => fst x =? i) log).
 Definition dones_of (i : Z) (evs : list xev) : list resp :=
   flat_map (fun e => match e with XDone j a => if j =? i then [a] else [] | XRead _ => [] end) evs.
+
+(* ================================================================== RadioLinkStatistics._update_rate_and_congestion
+   (cflib/crtp/radio_link_statistics.py) — called by the radio loop after every acknowledged transmission, OUTSIDE any
+   try/except: an exception here ends the radio thread.  Counters: packets up / null packets up / packets down (acks
+   that carried payload) / null packets down; `elapsed` = more than 0.1 s since the last report.
+     up += 1; if not packet_out: null_up += 1
+     if ack.data:                                   <- guard
+         if header is 0xF3-class: null_down += 1
+         down += 1
+         if elapsed: report  (… 1 - null_up / up … 1 - null_down / down …); counters := 0
+   The two divisions are modelled as partial: None = ZeroDivisionError. *)
+Record rstats := mkStats { st_up : Z; st_nup : Z; st_down : Z; st_ndown : Z }.
+Definition stats0 : rstats := mkStats 0 0 0 0.
+
+Definition pdiv (a b : Z) : option Z := if b =? 0 then None else Some (a / b).   (* quotient only; the value is not at stake *)
+
+(* the report step: Some (new counters) or None if a division raises *)
+Definition stats_report (s : rstats) : option rstats :=
+  match pdiv (st_nup s) (st_up s), pdiv (st_ndown s) (st_down s) with
+  | Some _, Some _ => Some stats0
+  | _, _ => None
+  end.
+
+(* one call of update: has_out = a packet was dequeued for the next transmission, data = the ack payload *)
+Definition stats_update (has_out : bool) (data : list Z) (elapsed : bool) (s : rstats) : option rstats :=
+  let s1 := mkStats (st_up s + 1) (if has_out then st_nup s else st_nup s + 1) (st_down s) (st_ndown s) in
+  match data with
+  | [] => Some s1
+  | d0 :: _ =>
+      let s2 := mkStats (st_up s1) (st_nup s1) (st_down s1 + 1)
+                        (if Z.land d0 243 =? 243 then st_ndown s1 + 1 else st_ndown s1) in
+      if elapsed then stats_report s2 else Some s2
+  end.
+
+(* the variant that reports for every elapsed period, also on an ack without payload (seeded/C01-l) *)
+Definition stats_update_unguarded (has_out : bool) (data : list Z) (elapsed : bool) (s : rstats) : option rstats :=
+  let s1 := mkStats (st_up s + 1) (if has_out then st_nup s else st_nup s + 1) (st_down s) (st_ndown s) in
+  let s2 := match data with
+            | [] => s1
+            | d0 :: _ => mkStats (st_up s1) (st_nup s1) (st_down s1 + 1)
+                                 (if Z.land d0 243 =? 243 then st_ndown s1 + 1 else st_ndown s1)
+            end in
+  if elapsed then stats_report s2 else Some s2.
+
+Fixpoint stats_run (upd : bool -> list Z -> bool -> rstats -> option rstats)
+         (calls : list (bool * list Z * bool)) (s : rstats) : option rstats :=
+  match calls with
+  | [] => Some s
+  | (o, d, e) :: t => match upd o d e s with Some s1 => stats_run upd t s1 | None => None end
+  end.
